@@ -56,7 +56,11 @@ func (f *Flag) Wait(what string) { vsched.BlockObj(what, f, uintptr(unsafe.Point
 type Counter struct{ n int }
 
 //go:norace
-func (c *Counter) Inc() int { vsched.YieldObj("counter.inc", uintptr(unsafe.Pointer(c)), true); c.n++; return c.n }
+func (c *Counter) Inc() int {
+	vsched.YieldObj("counter.inc", uintptr(unsafe.Pointer(c)), true)
+	c.n++
+	return c.n
+}
 
 //go:norace
 func (c *Counter) Get() int { return c.n }
